@@ -15,7 +15,7 @@ ASSUMPTIONS = A_COMMON + [
     "only through the bounded harness; their contracts live in the checks of C05/C06/C09",
 ]
 EXPLANATION = "del / reset_<attr> / reset install what Attr.lookup_default_value yields for the instance's class - the very function the constructor uses - as a mutate-safe value: never the class-level default object itself"
-SUBCHECKS = [("props._copy_protect", ["ProtectBody"])]
+SUBCHECKS = [("props._copy_protect", ["ProtectBody"]), ("props._defaults", ["LookupDefault", "DefaultValue"])]
 FINDINGS = []
 
 
